@@ -40,7 +40,7 @@ CONSTANTS Bytes,        \* byte values a data cell may hold (model: {10, 120})
           RlSizes,      \* arguments n >= 0 of readline(n) (n = -1 is always explored)
           SeekMax,      \* seek targets 0..SeekMax (closes the state space)
           Hints,        \* arguments h >= 1 of readlines(h) ({}: action not explored)
-          IterSingleLine, \* TRUE: the known deviation of list(member) / `for line in member` is allowed
+          IterSingleLine, \* TRUE would re-admit the old one-line outcome of list(member) (fixed: always FALSE)
           Ops,          \* FALSE: only the index (Open) is explored
           Emit          \* TRUE: print one EDGE / INDEX line per evaluated action instance
 
@@ -136,7 +136,7 @@ AReadLinesHint(m, h, k) ==
     /\ ACall(m, Res("l", SubSeq(sp, 1, k), 0), pos[m] + TakeLen(sp, k))
     /\ Edge("readlinesh", m, <<h, k>>)
 \* list(member) / a complete `for line in member`: every remaining line, like readlines().
-\* Known deviation (reported; enabled only by IterSingleLine): ArMember.__iter__ yields ONE line.
+\* Former deviation (fixed in 225a5e1; only IterSingleLine = TRUE would admit it): ONE line.
 AIter(m, k) ==
     LET sp == BLineSpans(D(m), pos[m]) IN
     /\ k = Len(sp) \/ (IterSingleLine /\ k = Lo(1, Len(sp)))
